@@ -15,6 +15,7 @@ import traceback
 
 HERE = os.path.dirname(os.path.dirname(os.path.abspath(__file__)))
 SRC = os.environ.get("CMINX_SRC", "/repo/src")
+OUT = os.environ.get("VERIF_OUT", HERE)        # self-tests on scratch copies write their evidence/replays elsewhere
 
 from .sv import VCError           # noqa: E402
 from . import solve               # noqa: E402
@@ -194,8 +195,8 @@ def main(argv):
         return replay(pid, argv[argv.index("--replay") + 1])
     t_start = time.time()
     spec = PROPS[pid]
-    os.makedirs(os.path.join(HERE, "evidence"), exist_ok=True)
-    os.makedirs(os.path.join(HERE, "replays"), exist_ok=True)
+    os.makedirs(os.path.join(OUT, "evidence"), exist_ok=True)
+    os.makedirs(os.path.join(OUT, "replays"), exist_ok=True)
     timeout_ms = 60000 if tier == "quick" else 120000
     lines = []
     exit_code = 0
@@ -259,7 +260,7 @@ def main(argv):
                 continue
             seen.add(sig)
             related = [o.name for (o, r) in failed if o.func.split("[")[0] == v.get("function")]
-            path = os.path.join(HERE, "replays", f"{pid}-{len(replay_paths)}.json")
+            path = os.path.join(OUT, "replays", f"{pid}-{len(replay_paths)}.json")
             with open(path, "w") as f:
                 json.dump({"property": pid, "kind": "runtime-contract", "function": v.get("function"),
                            "clause": v.get("clause"), "failed_conjunct": v.get("failed_conjunct"),
@@ -271,7 +272,7 @@ def main(argv):
                 break
     elif ob_viol:
         for (o, r) in ob_viol[:5]:
-            path = os.path.join(HERE, "replays", f"{pid}-{len(replay_paths)}.json")
+            path = os.path.join(OUT, "replays", f"{pid}-{len(replay_paths)}.json")
             with open(path, "w") as f:
                 json.dump({"property": pid, "kind": "refuted-obligation", "obligation": o.name, "where": o.where,
                            "backend": r[1], "solver_verdict": r[0], "solver_model": r[3], "reason": r[4],
@@ -390,7 +391,7 @@ def write_evidence(pid, tier, seed, spec, gens, obs, res, lemma_res, n_obl, disc
     ev = {"property_id": pid, "tier": tier if tier in ("quick", "thorough") else "quick", "seed": seed, "level": level,
           "coverage": cov, "assumptions": assumptions, "wall_s": round(wall, 1),
           "violations": len(violations)}
-    with open(os.path.join(HERE, "evidence", f"{pid}.json"), "w") as f:
+    with open(os.path.join(OUT, "evidence", f"{pid}.json"), "w") as f:
         json.dump(ev, f, indent=1, default=str)
 
 
